@@ -91,6 +91,8 @@ pub enum Cmd {
     NotifSetPolicy(u8),
     /// answer a pending validation for `peer` now
     NotifAnswer { peer: PeerId, accept: bool },
+    /// from now on the user reacts to a stream-closed event by asking for the stream again at once
+    NotifReopenOnClosed(bool),
     /// answer a validation for `peer` after this long (whatever is pending then)
     NotifAnswerLater { peer: PeerId, accept: bool, after: Duration },
     /// stop polling the notification handle for this long (reader stall)
@@ -546,6 +548,7 @@ async fn node_main(
     let mut stalled_requests: Vec<RequestId> = Vec::new();
     let mut notif_stall_until: Option<Instant> = None;
     let mut notif_throttle = Duration::ZERO;
+    let mut notif_reopen_on_closed = false;
     let mut delayed_validation: Vec<(Instant, PeerId, bool)> = Vec::new();
     loop {
         let next_due = delayed.iter().map(|d| d.0).chain(delayed_validation.iter().map(|d| d.0)).chain(notif_stall_until.iter().cloned()).min();
@@ -671,6 +674,7 @@ async fn node_main(
                         }
                     }
                     Cmd::NotifAnswerLater { peer, accept, after } => delayed_validation.push((Instant::now() + after, peer, accept)),
+                    Cmd::NotifReopenOnClosed(on) => notif_reopen_on_closed = on,
                     Cmd::NotifStall(d) => notif_stall_until = Some(Instant::now() + d),
                     Cmd::NotifThrottle(d) => notif_throttle = d,
                     Cmd::Ping(tx) => { let _ = tx.send(()); }
@@ -732,7 +736,13 @@ async fn node_main(
                         }
                     }
                     Some(NotificationEvent::NotificationStreamOpened { peer, direction, .. }) => push(&log, index, ObsKind::NotifOpened { peer, inbound: matches!(direction, litep2p::protocol::notification::Direction::Inbound) }),
-                    Some(NotificationEvent::NotificationStreamClosed { peer }) => push(&log, index, ObsKind::NotifClosed { peer }),
+                    Some(NotificationEvent::NotificationStreamClosed { peer }) => {
+                        push(&log, index, ObsKind::NotifClosed { peer });
+                        if notif_reopen_on_closed {
+                            let r = notif.as_mut().unwrap().open_substream(peer).await;
+                            push(&log, index, ObsKind::NotifApi { what: format!("open {peer}"), ok: r.is_ok() });
+                        }
+                    }
                     Some(NotificationEvent::NotificationStreamOpenFailure { peer, error }) => push(&log, index, ObsKind::NotifOpenFailure { peer, error: format!("{error:?}") }),
                     Some(NotificationEvent::NotificationReceived { peer, notification }) => {
                         push(&log, index, ObsKind::NotifReceived { peer, data: notification.to_vec() });
